@@ -313,7 +313,7 @@ fn main() {
                         let (a, b) = match rpt % 4 {
                             0 => (rng.moderate(1e6), rng.moderate(1e6)),
                             1 => (rng.any_finite(), rng.any_finite()),
-                            2 => { let a = rng.any_finite(); (a, a) }
+                            2 => { let a = rng.any_finite(); if rng.chance(0.5) { (a, a) } else { (a, -a) } } // equal and exactly opposite values
                             _ => { let z = if rng.chance(0.5) { 0.0f32 } else { -0.0 }; if rng.chance(0.5) { (z, -z) } else { (-rng.moderate(1e3).abs(), z) } }
                         };
                         let mut ctx = Ctx { rep: &mut rep, sub: "grid", case };
@@ -340,8 +340,9 @@ fn main() {
                     continue;
                 }
                 let mut rng = Rng::new(args.seed, 102, case);
-                let a = rng.moderate(1e6);
-                let n = if rng.chance(0.2) { rng.range_i64(-5, 5) } else { rng.mag_i64(50) };
+                let n = if rng.chance(0.2) { rng.range_i64(-5, 5) } else if rng.chance(0.2) { rng.range_i64(-200, 200) * 1_000_000_000 } else { rng.mag_i64(50) };
+                // the quantity is sometimes exactly +- the converted Time / integer (cancellation / equality fast paths)
+                let a = match rng.below(8) { 0 => -f32::from(Quantity::from(Time(n))), 1 => f32::from(Quantity::from(Time(n))), 2 => -(n as f32), 3 => n as f32, _ => rng.moderate(1e6) };
                 let mut ctx = Ctx { rep: &mut rep, sub: "mixed", case };
                 mixed(&mut ctx, (m, s), a, n);
                 let n2 = rng.mag_i64(50);
@@ -359,7 +360,7 @@ fn main() {
         let l = (rng.range_i64(-60, 60) as i32, rng.range_i64(-60, 60) as i32);
         let r = if rng.chance(0.3) { l } else { (rng.range_i64(-60, 60) as i32, rng.range_i64(-60, 60) as i32) };
         let a = rng.any_finite();
-        let b = if rng.chance(0.25) { a } else { rng.any_finite() };
+        let b = match rng.below(8) { 0 => a, 1 => -a, _ => rng.any_finite() };
         let mut ctx = Ctx { rep: &mut rep, sub: "random", case };
         pair(&mut ctx, l, r, a, b);
         if rep.want_sample("random") {
